@@ -8,6 +8,17 @@ From HV Require Import Gen.GenConfig Gen.GenConfigTime Gen.GenConfigMain Spec.Co
 Import ListNotations.
 Open Scope Z_scope.
 
+(* The literals the proofs below are about (regenerated from config.py / utils.py on every run).
+   Checked first: a changed literal stops the build here, at once, with this lemma's name. *)
+Lemma timeout_literals_pinned :
+  timeout_unparse_inf_literal = [105; 110; 102] /\
+  timeout_unparse_threshold = 1 /\ timeout_unparse_small_factor = 1000 /\ timeout_unparse_small_divisor = 1000 /\
+  timeout_unparse_large_suffix = [115] /\ timeout_unparse_small_suffix = [109; 115] /\
+  timeout_unparse_exact_suffix = [115] /\ timeout_default_unit = [109; 115] /\
+  time_units = [([109; 115], 2, 1, 1000); ([115], 1, 1, 1); ([109], 1, 60, 1); ([104], 1, 3600, 1)] /\
+  time_zero_literal = [48].
+Proof. repeat split; reflexivity. Qed.
+
 (* ---------------------------------------------------------------- strings of digits *)
 
 Definition digitc (c : Z) : Prop := 48 <= c <= 57.
@@ -543,4 +554,218 @@ Proof.
   split; [vm_compute; reflexivity|].
   split; [split; [split; [vm_compute; discriminate|vm_compute; reflexivity]|vm_compute; reflexivity]|].
   split; [reflexivity|vm_compute; reflexivity].
+Qed.
+
+(* ---------------------------------------------------------------- everything parse returns is a float *)
+
+Lemma digit_val_nonneg : forall c d, digit_val c = Some d -> 0 <= d.
+Proof.
+  intros c d H. unfold digit_val in H.
+  destruct ((48 <=? c) && (c <=? 57)) eqn:E1; [inversion H; lia|].
+  destruct ((97 <=? c) && (c <=? 122)) eqn:E2; [inversion H; lia|].
+  destruct ((65 <=? c) && (c <=? 90)) eqn:E3; [inversion H; lia|discriminate].
+Qed.
+
+Lemma pdu_nonneg : forall base s acc prev v, 0 < base -> 0 <= acc -> pdu base s acc prev = Some v -> 0 <= v.
+Proof.
+  intros base s. induction s as [|c r IH]; intros acc prev v Hb Ha H; cbn [pdu] in H.
+  - destruct prev; [inversion H; lia|discriminate].
+  - destruct (c =? 95).
+    + destruct prev; [|discriminate]. apply (IH _ _ _ Hb Ha H).
+    + destruct (digit_val c) as [d|] eqn:Hd; [|discriminate].
+      destruct (d <? base); [|discriminate].
+      pose proof (digit_val_nonneg _ _ Hd). assert (Hacc : 0 <= acc * base + d) by nia. apply (IH _ _ _ Hb Hacc H).
+Qed.
+
+Lemma mant_parts : forall (oi of_ : option Z) n D E,
+  (match oi, of_ with Some i, Some f => Some (i * 10 ^ n + f, - n) | _, _ => None end) = Some (D, E) ->
+  (forall i, oi = Some i -> 0 <= i) -> (forall f, of_ = Some f -> 0 <= f) -> 0 <= n -> 0 <= D.
+Proof.
+  intros oi of_ n D E Hm Hi Hf Hn. destruct oi as [i|]; [|discriminate]. destruct of_ as [f|]; [|discriminate].
+  inversion Hm; subst. specialize (Hi i eq_refl). specialize (Hf f eq_refl).
+  assert (0 <= 10 ^ n) by (apply Z.pow_nonneg; lia). nia.
+Qed.
+
+Lemma py_mantissa_nonneg : forall m D E, py_mantissa m = Some (D, E) -> 0 <= D.
+Proof.
+  intros m D E H. unfold py_mantissa in H. destruct (span_not 46 m) as [ip rest].
+  destruct rest as [|dot fp].
+  - destruct (pdu 10 ip 0 false) as [i|] eqn:Hi; [|discriminate]. cbn in H. inversion H; subst.
+    eapply (pdu_nonneg 10 ip 0 false); [lia|lia|exact Hi].
+  - assert (Hpd : forall l i, (match l with [] => Some 0 | _ => pdu 10 l 0 false end) = Some i -> 0 <= i).
+    { intros l i Hl. destruct l; [inversion Hl; lia|]. eapply (pdu_nonneg 10 _ 0 false i); [lia|lia|exact Hl]. }
+    pose proof (Hpd ip) as Hoi. pose proof (Hpd fp) as Hof.
+    set (oi := match ip with [] => Some 0 | _ => pdu 10 ip 0 false end) in *.
+    set (of_ := match fp with [] => Some 0 | _ => pdu 10 fp 0 false end) in *.
+    clearbody oi of_.
+    assert (Hn : 0 <= Z.of_nat (count_digits fp)) by lia.
+    destruct ip; destruct fp; try discriminate; apply (mant_parts oi of_ _ D E H Hoi Hof Hn).
+Qed.
+
+Lemma py_decimal_nonneg : forall s D E, py_decimal s = Some (D, E) -> 0 <= D.
+Proof.
+  intros s D E H. unfold py_decimal in H. destruct (span not_exp_char s) as [mant rest].
+  destruct (py_mantissa mant) as [[D0 E0]|] eqn:Hm; [|discriminate].
+  destruct (match rest with [] => Some 0 | _ :: x => with_sign (fun r => pdu 10 r 0 false) x end); [|discriminate].
+  inversion H; subst. apply (py_mantissa_nonneg _ _ _ Hm).
+Qed.
+
+Lemma f_of_decimal_valid : forall neg D E, 0 <= D -> valid_f64 (f_of_decimal neg D E).
+Proof.
+  intros neg D E HD. unfold f_of_decimal. destruct (0 <=? E) eqn:HE.
+  - apply f_of_ratio_valid; [|lia]. assert (0 <= 10 ^ E) by (apply Z.pow_nonneg; lia). nia.
+  - apply f_of_ratio_valid; [exact HD|]. apply Z.pow_pos_nonneg; lia.
+Qed.
+
+Lemma py_float_unsigned_valid : forall neg s v, py_float_unsigned neg s = Some v -> valid_f64 v.
+Proof.
+  intros neg s v H. unfold py_float_unsigned in H.
+  destruct (list_eqb (map lower s) str_inf || list_eqb (map lower s) str_infinity); [inversion H; exact I|].
+  destruct (list_eqb (map lower s) str_nan); [inversion H; exact I|].
+  destruct (py_decimal s) as [[D E]|] eqn:Hd; [|discriminate]. cbn in H. inversion H; subst.
+  apply f_of_decimal_valid. apply (py_decimal_nonneg _ _ _ Hd).
+Qed.
+
+Lemma py_float_valid : forall s v, py_float s = Some v -> valid_f64 v.
+Proof.
+  intros s v H. unfold py_float in H. destruct (strip_num s) as [|c r]; [discriminate|].
+  destruct (c =? 43); [apply (py_float_unsigned_valid _ _ _ H)|].
+  destruct (c =? 45); apply (py_float_unsigned_valid _ _ _ H).
+Qed.
+
+Lemma f_of_Z_valid : forall z, valid_f64 (f_of_Z z).
+Proof. intros z. unfold f_of_Z. apply f_of_ratio_valid; lia. Qed.
+
+Lemma f_div_valid : forall x y q, valid_f64 x -> valid_f64 y -> f_div x y = Some q -> valid_f64 q.
+Proof.
+  intros x y q Hx Hy H. pose proof F_TOP_pos as HT.
+  assert (Hz : forall b, valid_f64 (FFin b 0)) by (intro b; split; [exact representable_0|exact HT]).
+  destruct x as [|a|a k1], y as [|b|b k2]; cbn in H;
+    try (inversion H; subst; try exact I; apply Hz);
+    try (destruct k2; inversion H; subst; exact I).
+  destruct Hx as [[Hk1 _] _], Hy as [[Hk2 _] _].
+  destruct k2 as [|p|p]; [discriminate| |lia].
+  inversion H; subst. apply f_of_ratio_valid; lia.
+Qed.
+
+Lemma time_scale_valid : forall x mul div y, valid_f64 x -> time_scale x mul div = Some y -> valid_f64 y.
+Proof.
+  intros x mul div y Hx H. unfold time_scale in H.
+  assert (Hm : valid_f64 (if mul =? 1 then x else f_mul x (f_of_Z mul))).
+  { destruct (mul =? 1); [exact Hx|apply f_mul_valid; [exact Hx|apply f_of_Z_valid]]. }
+  destruct (div =? 1); [inversion H; subst; exact Hm|].
+  apply (f_div_valid _ _ _ Hm (f_of_Z_valid div) H).
+Qed.
+
+Lemma parse_time_units_valid : forall units arg v,
+  parse_time_units units arg = Some (Some v) -> valid_f64 v.
+Proof.
+  induction units as [|[[[suf k] mul] div] rest IH]; intros arg v H; [discriminate|].
+  cbn [parse_time_units] in H. destruct (endswith arg suf); [|apply (IH _ _ H)].
+  destruct (py_float (firstn (length arg - Z.to_nat k) arg)) as [x|] eqn:Hx; [|discriminate].
+  injection H as H. apply (time_scale_valid _ _ _ _ (py_float_valid _ _ Hx) H).
+Qed.
+
+Lemma f_zero_valid : valid_f64 f_zero.
+Proof. split; [exact representable_0|exact F_TOP_pos]. Qed.
+
+Theorem timeout_parse_valid : forall s v, timeout_parse s = Some v -> valid_f64 v.
+Proof.
+  intros s v H. unfold timeout_parse, parse_time in H.
+  destruct (nonempty timeout_default_unit && negb (mem_str timeout_default_unit time_allowed_default_units)); [discriminate|].
+  destruct (parse_time_units time_units s) as [r|] eqn:H1; [subst r; apply (parse_time_units_valid _ _ _ H1)|].
+  destruct (list_eqb s time_zero_literal); [inversion H; subst; exact f_zero_valid|].
+  destruct (nonempty timeout_default_unit); [|discriminate].
+  destruct (parse_time_units time_units (s ++ timeout_default_unit)) as [r|] eqn:H2; [subst r; apply (parse_time_units_valid _ _ _ H2)|].
+  destruct (list_eqb (s ++ timeout_default_unit) time_zero_literal); [inversion H; subst; exact f_zero_valid|discriminate].
+Qed.
+
+(* the round trip, starting from any string parse accepts *)
+Theorem timeout_parse_unparse_parse : forall s v u,
+  timeout_parse s = Some v -> timeout_unparse v = Some u ->
+  faithful_rendering parse_denote u (f_denote v).
+Proof. intros s v u Hp Hu. apply (timeout_roundtrip v u (timeout_parse_valid s v Hp) Hu). Qed.
+
+Theorem timeout_parse_unparse_total_nonneg : forall s v,
+  timeout_parse s = Some v -> f_neg v = false ->
+  exists u, timeout_unparse v = Some u /\ faithful_rendering parse_denote u (f_denote v).
+Proof.
+  intros s v Hp Hn. pose proof (timeout_parse_valid s v Hp) as Hv.
+  destruct (timeout_unparse v) as [u|] eqn:Hu.
+  - exists u. split; [reflexivity|apply (timeout_roundtrip v u Hv Hu)].
+  - exfalso. apply (timeout_unparse_total_nonneg v Hv Hn Hu).
+Qed.
+
+(* ---------------------------------------------------------------- numbers from halmos.toml *)
+
+Lemma parse_time_ms_none : forall body,
+  parse_time (body ++ [109; 115]) None =
+  match py_float body with Some x => f_div x (f_of_Z 1000) | None => None end.
+Proof.
+  intros body. unfold parse_time, time_units. cbn [parse_time_units]. rewrite endswith_app.
+  rewrite (firstn_strip_suffix body [109; 115] (Z.to_nat 2)) by reflexivity.
+  destruct (py_float body); reflexivity.
+Qed.
+
+(* an integer i in the file is i milliseconds: float(i) / 1000 *)
+Theorem timeout_parse_int_value : forall i, timeout_parse_int i = f_div (f_of_Z i) (f_of_Z 1000).
+Proof.
+  intros i. unfold timeout_parse_int, parse_time_num. rewrite timeout_default_unit_ok.
+  unfold timeout_default_unit. cbn [nonempty]. rewrite parse_time_ms_none, py_float_str_of_Z. reflexivity.
+Qed.
+
+(* a float x in the file is x milliseconds: x / 1000 *)
+Theorem timeout_parse_float_value : forall x, valid_f64 x -> timeout_parse_float x = f_div x (f_of_Z 1000).
+Proof.
+  intros x Hx. unfold timeout_parse_float, parse_time_num. rewrite timeout_default_unit_ok.
+  unfold timeout_default_unit. cbn [nonempty]. rewrite parse_time_ms_none, (float_repr_roundtrip x Hx). reflexivity.
+Qed.
+
+Lemma endswith_1_false : forall a c p, (c =? p) = false -> endswith (a ++ [c]) [p] = false.
+Proof.
+  intros a c p Hp. unfold endswith. rewrite app_length. cbn [length].
+  replace (length a + 1 - 1)%nat with (length a) by lia.
+  rewrite skipn_app, skipn_all, Nat.sub_diag. cbn [skipn app list_eqb]. rewrite Hp.
+  apply andb_false_r.
+Qed.
+
+Lemma endswith_2_last_false : forall a c p q, (c =? q) = false -> endswith (a ++ [c]) [p; q] = false.
+Proof.
+  intros a c p q Hq.
+  assert (Ha : a = [] \/ exists t x, a = t ++ [x]).
+  { destruct a as [|y a'] using rev_ind; [left; reflexivity|right; eexists _, _; reflexivity]. }
+  destruct Ha as [->|(t & x & ->)]; [reflexivity|].
+  rewrite <- app_assoc. cbn [app]. unfold endswith. rewrite app_length. cbn [length].
+  replace (length t + 2 - 2)%nat with (length t) by lia.
+  rewrite skipn_app, skipn_all, Nat.sub_diag. cbn [skipn app list_eqb]. rewrite Hq.
+  rewrite andb_false_r. apply andb_false_r.
+Qed.
+
+(* ... which is what the same digits mean as a string *)
+Theorem timeout_parse_int_as_string : forall i, timeout_parse (str_of_Z i) = timeout_parse_int i.
+Proof.
+  intros i. rewrite timeout_parse_int_value.
+  unfold timeout_parse, parse_time. rewrite timeout_default_unit_ok.
+  destruct (str_of_Z_ends_digit i) as (a & c & Hstr & Hc). unfold digitc in Hc.
+  assert (Hnone : parse_time_units time_units (str_of_Z i) = None).
+  { rewrite Hstr. unfold time_units. cbn [parse_time_units].
+    rewrite endswith_2_last_false by lia. rewrite !endswith_1_false by lia. reflexivity. }
+  rewrite Hnone. unfold time_zero_literal, timeout_default_unit. cbn [nonempty].
+  destruct (list_eqb (str_of_Z i) [48]) eqn:Hz.
+  - (* "0": the literal test returns 0.0, and so does 0 / 1000 *)
+    assert (Hi : i = 0).
+    { pose proof (py_int10_str i) as Hp.
+      assert (Hs : str_of_Z i = [48]).
+      { destruct (str_of_Z i) as [|x [|y t]]; cbn [list_eqb] in Hz.
+        - discriminate.
+        - apply andb_true_iff in Hz. destruct Hz as [Hx _]. apply Z.eqb_eq in Hx. subst. reflexivity.
+        - rewrite andb_false_r in Hz. discriminate. }
+      rewrite Hs in Hp. vm_compute in Hp. inversion Hp. reflexivity. }
+    subst i. rewrite f_of_Z_1000, (f_of_Z_small 0) by (split; [lia|reflexivity]).
+    pose proof F_UNIT_pos. rewrite Z.mul_0_l, f_div_fin by lia. rewrite f_of_ratio_0 by lia. reflexivity.
+  - change (match parse_time_units time_units (str_of_Z i ++ [109; 115]) with
+            | Some r => r
+            | None => if list_eqb (str_of_Z i ++ [109; 115]) [48] then Some f_zero else None
+            end) with (parse_time (str_of_Z i ++ [109; 115]) None).
+    rewrite parse_time_ms_none, py_float_str_of_Z. reflexivity.
 Qed.
